@@ -17,10 +17,10 @@ type Value struct {
 	Lit any    // string | int64 | bool (when Ref == "")
 }
 
-func RefV(id string) Value { return Value{Ref: id} }
-func StrV(s string) Value  { return Value{Lit: s} }
-func IntV(i int64) Value   { return Value{Lit: i} }
-func BoolV(b bool) Value   { return Value{Lit: b} }
+func RefV(id string) Value   { return Value{Ref: id} }
+func StrV(s string) Value    { return Value{Lit: s} }
+func IntV(i int64) Value     { return Value{Lit: i} }
+func BoolV(b bool) Value     { return Value{Lit: b} }
 func FloatV(f float64) Value { return Value{Lit: f} } // fractional values only (integers are IntV)
 
 func (v Value) IsRef() bool { return v.Ref != "" }
